@@ -466,3 +466,72 @@ Proof.
     - apply IH; intros j u Hin; [apply (Hn j u)|apply (Hr j u)]; right; exact Hin. }
   rewrite F. reflexivity.
 Qed.
+
+(* ---------- C20: the abort may come at ANY position of the reply script ---------- *)
+
+Theorem abort_at_any_position {A B} (h : A -> N -> value -> option (cres B) * A) fin : forall pre acc i v rest res,
+  (forall acc0 j u, In (j, u) pre -> fst (h acc0 j u) = None) ->      (* the replies before it are passed over *)
+  (forall acc0, fst (h acc0 i v) = Some res) ->                       (* what the handler answers to the abort, whatever it has seen *)
+  run_handler h fin acc (pre ++ (i, v) :: rest) = res.
+Proof.
+  induction pre as [|[j u] pre IH]; intros acc i v rest res Hp Ha.
+  - cbn [app run_handler]. specialize (Ha acc). destruct (h acc i v) as [[r|] acc']; cbn [fst] in Ha; [congruence|discriminate].
+  - cbn [app run_handler]. pose proof (Hp acc j u (or_introl eq_refl)) as Hj.
+    destruct (h acc j u) as [[r|] acc']; cbn [fst] in Hj; [discriminate|].
+    apply IH; [intros acc0 j' u' Hin; apply Hp; right; exact Hin|exact Ha].
+Qed.
+
+(* packaged for the exchanges of the client: after any number of replies the handler passes over, an abort with code c
+   makes the call fail with an error identifying c — never a success — with exactly the three documented translations *)
+Theorem abort_surfaces_anywhere c ixa ixs ixc rest its tail : ixa <> ixc ->
+  (forall acc0 j u, In (j, u) its -> fst (h_commit ixa ixs acc0 j u) = None) ->
+  run_handler (h_commit ixa ixs) (fun a => ROk a) None (its ++ (ixa, VRec (VInt c :: rest)) :: tail) = RErr (EAborted c).
+Proof.
+  intros H Hp. apply abort_at_any_position; [exact Hp|]. intros acc0. apply abort_commit.
+Qed.
+
+Theorem abort_begin_anywhere c ixa ixs rest its tail :
+  (forall acc0 j u, In (j, u) its -> fst (h_begin ixa ixs acc0 j u) = None) ->
+  exists e, run_handler (h_begin ixa ixs) f_begin None (its ++ (ixa, VRec (VInt c :: rest)) :: tail) = RErr e /\
+            (c <> 252 \/ ERRORS_KNOWN c = false -> identifies e c) /\ (c = 252 -> ERRORS_KNOWN c = true -> e = ENeedsPin).
+Proof.
+  intros Hp.
+  set (e := if negb (ERRORS_KNOWN c) then EUnknownCode c else if c =? 252 then ENeedsPin else EAborted c).
+  exists e. split.
+  - apply abort_at_any_position; [exact Hp|]. intros acc0. rewrite abort_begin. unfold e.
+    destruct (negb (ERRORS_KNOWN c)); [reflexivity|]. destruct (c =? 252); reflexivity.
+  - unfold e, identifies. destruct (ERRORS_KNOWN c) eqn:K; cbn [negb].
+    + destruct (c =? 252) eqn:E; split; try (intros [X|X]; [lia|discriminate]); try (intros; reflexivity); try (intros _; left; reflexivity); intros; lia.
+    + split; [intros _; right; left; reflexivity|intros _ X; discriminate].
+Qed.
+
+Theorem abort_read_card_anywhere c ixa ixs rest its tail :
+  (forall acc0 j u, In (j, u) its -> fst (h_read_card ixa ixs acc0 j u) = None) ->
+  exists e, run_handler (h_read_card ixa ixs) f_read_card None (its ++ (ixa, VRec (VInt c :: rest)) :: tail) = RErr e /\
+            (c <> 108 \/ ERRORS_KNOWN c = false -> identifies e c) /\ (c = 108 -> ERRORS_KNOWN c = true -> e = ENoCard).
+Proof.
+  intros Hp.
+  set (e := if negb (ERRORS_KNOWN c) then EUnknownCode c else if c =? 108 then ENoCard else EUnhandled c).
+  exists e. split.
+  - apply abort_at_any_position; [exact Hp|]. intros acc0. rewrite abort_read_card. unfold e.
+    destruct (negb (ERRORS_KNOWN c)); [reflexivity|]. destruct (c =? 108); reflexivity.
+  - unfold e, identifies. destruct (ERRORS_KNOWN c) eqn:K; cbn [negb].
+    + destruct (c =? 108) eqn:E; split; try (intros [X|X]; [lia|discriminate]); try (intros; reflexivity); try (intros _; right; right; reflexivity); intros; lia.
+    + split; [intros _; right; left; reflexivity|intros _ X; discriminate].
+Qed.
+
+Theorem abort_eod_anywhere c ixc ixa rest its tail : ixa <> ixc ->
+  (forall acc0 j u, In (j, u) its -> fst (h_eod ixc ixa acc0 j u) = None) ->
+  run_handler (h_eod ixc ixa) (fun _ => RErr EIncomplete) tt (its ++ (ixa, VRec (VInt c :: rest)) :: tail) =
+  if c =? 160 then ROk tt else RErr (EAborted c).
+Proof.
+  intros H Hp. apply abort_at_any_position; [exact Hp|]. intros acc0. destruct acc0. rewrite abort_end_of_day by exact H.
+  destruct (c =? 160); reflexivity.
+Qed.
+
+Theorem abort_until_completion_anywhere c ixc ixa rest its tail : ixa <> ixc ->
+  (forall acc0 j u, In (j, u) its -> fst (h_until_completion ixc ixa acc0 j u) = None) ->
+  run_handler (h_until_completion ixc ixa) (fun _ => RErr EIncomplete) tt (its ++ (ixa, VRec (VInt c :: rest)) :: tail) = RErr (EAborted c).
+Proof.
+  intros H Hp. apply abort_at_any_position; [exact Hp|]. intros acc0. destruct acc0. apply abort_until_completion. exact H.
+Qed.
